@@ -47,3 +47,4 @@ Definition oracle (c : Case) : bool :=
     end
   | CFormat _ _ _ => false
   end.
+Definition info (cs : list Case) : list N := [].
